@@ -221,15 +221,24 @@ def mod (z x y : MInt) : Option MInt :=
     let (m, _, r) := largeDivMod x.bits y.bits x.bigv y.bigv
     some { bits := m, i64 := z.i64, big := some (r : Int) }
 
-/-- Bitwise operations of the large path on non-negative values (math/big);
-negative big operands are outside the model (see the check's assumptions). -/
+/-- math/big bitwise operations act on the infinite two's complement
+representation: computed here on `w`-bit residues with `w` larger than both
+magnitudes, then read back as a signed `w`-bit number. -/
+def intBitwise (f : Nat → Nat → Nat) (a b : Int) : Int :=
+  let w := max (natBitLen a.natAbs) (natBitLen b.natAbs) + 1
+  let r := f (wires a w) (wires b w) % 2 ^ w
+  if r ≥ 2 ^ (w - 1) then (r : Int) - ((2 ^ w : Nat) : Int) else (r : Int)
+
+/-- Bitwise operations: `setSmall` of the `int64` operation, resp. math/big on
+the big values (`z.bits` unchanged). -/
 def bitwise (f64 : BitVec 64 → BitVec 64 → BitVec 64) (fnat : Nat → Nat → Nat) (z x y : MInt) : Option MInt :=
   if z.isSmall then setSmall z.bits (f64 x.small y.small)
-  else some { z with big := some ((fnat x.bigv.toNat y.bigv.toNat : Nat) : Int) }
+  else some { z with big := some (intBitwise fnat x.bigv y.bigv) }
 
 def and := bitwise (· &&& ·) (· &&& ·)
 def or := bitwise (· ||| ·) (· ||| ·)
 def xor := bitwise (· ^^^ ·) (· ^^^ ·)
+/-- `x &^ y`; on residues `a &&& ~b = a ^^^ (a &&& b)`. -/
 def andNot := bitwise (fun a b => a &&& ~~~b) (fun a b => a ^^^ (a &&& b))
 
 /-- `Lsh`: large path shifts the big value and clears the bits from `z.bits`
